@@ -35,8 +35,10 @@ structure Inv (R C I0 J0 : Nat) (st : TB) : Prop where
   hR : st.maxI ≤ R
   hC : st.maxJ ≤ C
   segm : st.last = .m → st.maxI - st.i = st.maxJ - st.j
-  segu : st.last = .u → st.j = st.maxJ ∧ st.i < st.maxI
-  segl : st.last = .l → st.i = st.maxI ∧ st.j < st.maxJ
+  -- a gap run in progress is non-empty, except in the initial state of a traceback that
+  -- starts in a gap layer (`last = layer`, FittedAffine since the repair of K3)
+  segu : st.last = .u → st.j = st.maxJ ∧ (st.i < st.maxI ∨ st.layer = .u)
+  segl : st.last = .l → st.i = st.maxI ∧ (st.j < st.maxJ ∨ st.layer = .l)
   empty0 : st.i = st.maxI → st.j = st.maxJ → st.score = 0
   shapes : st.aln.all pairShape = true
   chn : chain st.aln = true
@@ -85,8 +87,12 @@ theorem move_inv {R C I0 J0 : Nat} {st : TB} (h : Inv R C I0 J0 st) (hi0 : 0 < s
       | m => have := segm hl; by_cases he : st.maxI - st.i = 0
              · right; right; right; exact ⟨he, by omega, empty0 (by omega) (by omega)⟩
              · left; exact ⟨this, he⟩
-      | u => have := segu hl; right; right; left; omega
-      | l => have := segl hl; right; left; omega
+      | u => have := segu hl; by_cases he : st.maxI - st.i = 0
+             · right; right; right; exact ⟨he, by omega, empty0 (by omega) (by omega)⟩
+             · right; right; left; omega
+      | l => have := segl hl; by_cases he : st.maxJ - st.j = 0
+             · right; right; right; exact ⟨by omega, he, empty0 (by omega) (by omega)⟩
+             · right; left; omega
     refine ⟨?_, ?_, hR, hC, ?_, ?_, ?_, ?_, ?_, ?_, ?_, ?_⟩
     · simp only []; split <;> omega
     · simp only []; split <;> omega
@@ -147,9 +153,9 @@ theorem move_inv {R C I0 J0 : Nat} {st : TB} (h : Inv R C I0 J0 st) (hi0 : 0 < s
     · simpa [endOf] using endp
 
 /-- the loop keeps the invariant and stops inside the table -/
-theorem loop_inv (aware sw : Bool) (T : Table) (S : Matrix) (o : Int) (r q : List Nat) (R C I0 J0 : Nat) :
+theorem loop_inv (aware cross sw : Bool) (T : Table) (S : Matrix) (o : Int) (r q : List Nat) (R C I0 J0 : Nat) :
     ∀ (fuel : Nat) (st st' : TB), Inv R C I0 J0 st →
-      tbLoop aware sw T S o r q R C fuel st = .ok st' → Inv R C I0 J0 st' := by
+      tbLoop aware cross sw T S o r q R C fuel st = .ok st' → Inv R C I0 J0 st' := by
   intro fuel
   induction fuel with
   | zero => intro st st' h hl; simp only [tbLoop] at hl; cases hl; exact h
@@ -168,7 +174,7 @@ theorem loop_inv (aware sw : Bool) (T : Table) (S : Matrix) (o : Int) (r q : Lis
       by_cases hsw : (sw = true ∧ v = 0)
       · rw [if_pos hsw] at hl; cases hl; exact h
       rw [if_neg hsw] at hl
-      cases hf : (cands sw S o (r.getD (st.i - 1) 0) (q.getD (st.j - 1) 0)).find?
+      cases hf : (cands cross sw S o (r.getD (st.i - 1) 0) (q.getD (st.j - 1) 0)).find?
           (caseHit aware T st v) with
       | none => rw [hf] at hl; cases hl
       | some cd =>
@@ -196,6 +202,23 @@ theorem init_inv (R C I0 J0 : Nat) (layer : Kind) (hI : I0 ≤ R) (hJ : J0 ≤ C
   link := fun _ _ h => by cases h
   endp := rfl
 
+/-- the initial state of a traceback started at `(I0, J0)` in the run of its start layer
+    (`last = layer`, FittedAffine) -/
+theorem init_inv_layer (R C I0 J0 : Nat) (layer : Kind) (hI : I0 ≤ R) (hJ : J0 ≤ C) :
+    Inv R C I0 J0 { i := I0, j := J0, layer, last := layer, score := 0, maxI := I0, maxJ := J0, aln := [] } where
+  hi := Nat.le_refl _
+  hj := Nat.le_refl _
+  hR := hI
+  hC := hJ
+  segm := fun _ => by simp
+  segu := fun h => ⟨rfl, Or.inr h⟩
+  segl := fun h => ⟨rfl, Or.inr h⟩
+  empty0 := fun _ _ => rfl
+  shapes := rfl
+  chn := rfl
+  link := fun _ _ h => by cases h
+  endp := rfl
+
 /-- emitting the last segment of a state satisfying the invariant gives a well-formed path
     that ends where the traceback started and starts where it stopped -/
 theorem emit_wf {R C I0 J0 : Nat} {st : TB} (h : Inv R C I0 J0 st) :
@@ -209,8 +232,12 @@ theorem emit_wf {R C I0 J0 : Nat} {st : TB} (h : Inv R C I0 J0 st) :
     | m => have := segm hl; by_cases he : st.maxI - st.i = 0
            · right; right; right; exact ⟨he, by omega, empty0 (by omega) (by omega)⟩
            · left; exact ⟨this, he⟩
-    | u => have := segu hl; right; right; left; omega
-    | l => have := segl hl; right; left; omega
+    | u => have := segu hl; by_cases he : st.maxI - st.i = 0
+           · right; right; right; exact ⟨he, by omega, empty0 (by omega) (by omega)⟩
+           · right; right; left; omega
+    | l => have := segl hl; by_cases he : st.maxJ - st.j = 0
+           · right; right; right; exact ⟨by omega, he, empty0 (by omega) (by omega)⟩
+           · right; left; omega
   refine ⟨?_, ?_, ?_⟩
   · simp only [wellFormed, TB.emit, List.isEmpty_cons, Bool.not_false, List.all_cons, hshape, shapes,
       Bool.and_self, Bool.true_and]
@@ -236,8 +263,8 @@ theorem move_ij (st : TB) (e : Bool) (mv pl : Kind) (v pv : Int) :
   · rw [move_keep st e mv pl v pv h]; exact ⟨rfl, rfl⟩
 
 /-- with enough fuel the NW/fitted loop stops only at the table's border -/
-theorem loop_stops (aware : Bool) (T : Table) (S : Matrix) (o : Int) (r q : List Nat) (R C : Nat) :
-    ∀ (fuel : Nat) (st st' : TB), tbLoop aware false T S o r q R C fuel st = .ok st' →
+theorem loop_stops (aware cross : Bool) (T : Table) (S : Matrix) (o : Int) (r q : List Nat) (R C : Nat) :
+    ∀ (fuel : Nat) (st st' : TB), tbLoop aware cross false T S o r q R C fuel st = .ok st' →
       st.i + st.j ≤ fuel → st'.i = 0 ∨ st'.j = 0 := by
   intro fuel
   induction fuel with
@@ -256,7 +283,7 @@ theorem loop_stops (aware : Bool) (T : Table) (S : Matrix) (o : Int) (r q : List
       simp only [] at hl
       have hsw : ¬ ((false : Bool) = true ∧ v = 0) := by simp
       rw [if_neg hsw] at hl
-      cases hf' : (cands false S o (r.getD (st.i - 1) 0) (q.getD (st.j - 1) 0)).find?
+      cases hf' : (cands cross false S o (r.getD (st.i - 1) 0) (q.getD (st.j - 1) 0)).find?
           (caseHit aware T st v) with
       | none => rw [hf'] at hl; cases hl
       | some cd =>
@@ -274,31 +301,25 @@ theorem lastEnd_cons (p : Pair) (ps : List Pair) (h : ps ≠ []) : lastEnd (p ::
   | nil => exact absurd rfl h
   | cons a t => simp [lastEnd, List.getLast?_cons_cons]
 
-/-- `NWAffine`: the returned pairs form one well-formed path that spans both sequences -/
-theorem nwAlign_wf (S : Matrix) (o : Int) (r q : List Nat) (ps : List Pair)
-    (h : nwAlign S o r q = .ok ps) :
+/-- `NWAffine` (either switch, either fill): the returned pairs form one well-formed path that
+    spans both sequences -/
+theorem nwAlignT_wf (aware cross : Bool) (S : Matrix) (o : Int) (r q : List Nat) (ps : List Pair) (t : Bool)
+    (h : nwAlignT aware cross S o r q = .ok (ps, t)) :
     wellFormed ps = true ∧ spansAll ps r.length q.length = true := by
-  unfold nwAlign nwAlignT at h
+  unfold nwAlignT at h
   simp only [] at h
-  cases hl : tbLoop true false (nwTable S o r q) S o r q r.length q.length (r.length + q.length)
-      { i := r.length, j := q.length,
-        layer := (if vgt ((nwTable S o r q).at r.length q.length).u ((nwTable S o r q).at r.length q.length).d
-          then (if vgt ((nwTable S o r q).at r.length q.length).l ((nwTable S o r q).at r.length q.length).u then .l else .u)
-          else (if vgt ((nwTable S o r q).at r.length q.length).l ((nwTable S o r q).at r.length q.length).d then .l else .m)),
-        last := .m, score := 0, maxI := r.length, maxJ := q.length, aln := [] } with
-  | error e => rw [hl] at h; cases h
-  | ok st =>
-    rw [hl] at h
-    simp only [] at h
-    have hinv := loop_inv true false _ S o r q r.length q.length r.length q.length _ _ st
+  split at h
+  · cases h
+  · rename_i st hl
+    have hinv := loop_inv aware cross false _ S o r q r.length q.length r.length q.length _ _ st
       (init_inv r.length q.length r.length q.length _ (Nat.le_refl _) (Nat.le_refl _)) hl
-    have hstop := loop_stops true _ S o r q r.length q.length _ _ st hl (Nat.le_refl _)
+    have hstop := loop_stops aware cross _ S o r q r.length q.length _ _ st hl (Nat.le_refl _)
     obtain ⟨hwf, hend, hstart⟩ := emit_wf hinv
     have hne : st.emit.aln ≠ [] := by simp [TB.emit]
     by_cases hij : st.i ≠ st.j
     · rw [if_pos hij] at h
-      simp only [Except.map] at h
-      cases h
+      have h := (Prod.mk.inj (Except.ok.inj h)).1
+      subst h
       simp only [wellFormed, Bool.and_eq_true, Bool.not_eq_true', List.all_eq_true] at hwf
       refine ⟨?_, ?_⟩
       · simp only [wellFormed, List.isEmpty_cons, Bool.not_false, Bool.true_and, List.all_cons,
@@ -323,14 +344,28 @@ theorem nwAlign_wf (S : Matrix) (o : Int) (r q : List Nat) (ps : List Pair)
         rw [lastEnd_cons _ _ hne]; exact hend
     · have hij' : st.i = st.j := Decidable.not_not.mp hij
       rw [if_neg hij] at h
-      simp only [Except.map] at h
-      cases h
+      have h := (Prod.mk.inj (Except.ok.inj h)).1
+      subst h
       refine ⟨hwf, ?_⟩
       simp only [spansAll, Bool.and_eq_true, beq_iff_eq]
       refine ⟨?_, hend⟩
       rw [hstart]
       have : st.i = 0 ∧ st.j = 0 := by omega
       rw [this.1, this.2]
+
+/-- unfolding `Except.map Prod.fst … = .ok ps` -/
+theorem map_fst_ok {α β ε} {x : Except ε (α × β)} {a : α} (h : x.map (·.1) = .ok a) :
+    ∃ b, x = .ok (a, b) := by
+  cases x with
+  | error e => cases h
+  | ok v => obtain ⟨a', b⟩ := v; simp only [Except.map] at h; cases h; exact ⟨b, rfl⟩
+
+/-- `NWAffine`: the returned pairs form one well-formed path that spans both sequences -/
+theorem nwAlign_wf (S : Matrix) (o : Int) (r q : List Nat) (ps : List Pair)
+    (h : nwAlign S o r q = .ok ps) :
+    wellFormed ps = true ∧ spansAll ps r.length q.length = true := by
+  obtain ⟨t, ht⟩ := map_fst_ok h
+  exact nwAlignT_wf true true S o r q ps t ht
 
 /-! ### FittedAffine -/
 
@@ -348,33 +383,50 @@ theorem fitEnd_le (t : Table) (C B : Nat) : ∀ (n y : Nat) (best : Nat × V), b
       · simp only []; omega
     · omega
 
-/-- `FittedAffine`: one well-formed path inside the table that covers the whole query -/
-theorem fitAlign_wf (S : Matrix) (o : Int) (r q : List Nat) (ps : List Pair)
-    (h : fitAlign S o r q = .ok ps) :
+theorem fitEnd3_le (t : Table) (C B : Nat) : ∀ (n y : Nat) (best : Nat × Kind × V), best.1 ≤ B → y + n ≤ B + 1 →
+    (fitEnd3 t C n y best).1 ≤ B := by
+  intro n
+  induction n with
+  | zero => intro y best hb _; exact hb
+  | succ n ih =>
+    intro y best hb hy
+    simp only [fitEnd3]
+    apply ih
+    · split
+      · exact hb
+      · simp only []; omega
+    · omega
+
+/-- the start row of `FittedAffine` (either end selection) lies inside the table -/
+theorem fitStart_le (ends : Bool) (t : Table) (R C : Nat) :
+    (if ends then fitEnd3 t C R 1 (0, .m, none) else (fitEnd t C R 1 (0, none), Kind.m)).1 ≤ R := by
+  cases ends with
+  | true => exact fitEnd3_le _ _ _ _ _ _ (Nat.zero_le _) (by omega)
+  | false => exact fitEnd_le _ _ _ _ _ _ (Nat.zero_le _) (by omega)
+
+/-- `FittedAffine` (either switch, fill and end selection): one well-formed path inside the table
+    that covers the whole query -/
+theorem fitAlignT_wf (aware cross ends : Bool) (S : Matrix) (o : Int) (r q : List Nat) (ps : List Pair) (t : Bool)
+    (h : fitAlignT aware cross ends S o r q = .ok (ps, t)) :
     wellFormed ps = true ∧ inBounds ps r.length q.length = true ∧
       (firstStart ps).2 = 0 ∧ (lastEnd ps).2 = q.length := by
-  unfold fitAlign fitAlignT at h
+  unfold fitAlignT at h
   simp only [] at h
-  have hE : fitEnd (fitTable S o r q) q.length r.length 1 (0, none) ≤ r.length :=
-    fitEnd_le _ _ _ _ _ _ (Nat.zero_le _) (by omega)
-  cases hl : tbLoop true false (fitTable S o r q) S o r q r.length q.length
-      (fitEnd (fitTable S o r q) q.length r.length 1 (0, none) + q.length)
-      { i := fitEnd (fitTable S o r q) q.length r.length 1 (0, none), j := q.length, layer := .m,
-        last := .m, score := 0, maxI := fitEnd (fitTable S o r q) q.length r.length 1 (0, none),
-        maxJ := q.length, aln := [] } with
-  | error e => rw [hl] at h; cases h
-  | ok st =>
-    rw [hl] at h
-    simp only [] at h
-    have hinv := loop_inv true false _ S o r q r.length q.length _ q.length _ _ st
-      (init_inv r.length q.length _ q.length _ hE (Nat.le_refl _)) hl
-    have hstop := loop_stops true _ S o r q r.length q.length _ _ st hl (Nat.le_refl _)
+  have hE := fitStart_le ends (fitTable cross S o r q) r.length q.length
+  generalize (if ends then fitEnd3 (fitTable cross S o r q) q.length r.length 1 (0, .m, none)
+    else (fitEnd (fitTable cross S o r q) q.length r.length 1 (0, none), Kind.m)) = start at h hE
+  split at h
+  · cases h
+  · rename_i st hl
+    have hinv := loop_inv aware cross false _ S o r q r.length q.length _ q.length _ _ st
+      (init_inv_layer r.length q.length _ q.length _ hE (Nat.le_refl _)) hl
+    have hstop := loop_stops aware cross _ S o r q r.length q.length _ _ st hl (Nat.le_refl _)
     obtain ⟨hwf, hend, hstart⟩ := emit_wf hinv
     have hne : st.emit.aln ≠ [] := by simp [TB.emit]
     by_cases hj : st.j ≠ 0
     · rw [if_pos hj] at h
-      simp only [Except.map] at h
-      cases h
+      have h := (Prod.mk.inj (Except.ok.inj h)).1
+      subst h
       simp only [wellFormed, Bool.and_eq_true, Bool.not_eq_true', List.all_eq_true] at hwf
       refine ⟨?_, ?_, rfl, ?_⟩
       · simp only [wellFormed, List.isEmpty_cons, Bool.not_false, Bool.true_and, List.all_cons,
@@ -395,12 +447,20 @@ theorem fitAlign_wf (S : Matrix) (o : Int) (r q : List Nat) (ps : List Pair)
       · rw [lastEnd_cons _ _ hne, hend]
     · have hj' : st.j = 0 := Decidable.not_not.mp hj
       rw [if_neg hj] at h
-      simp only [Except.map] at h
-      cases h
+      have h := (Prod.mk.inj (Except.ok.inj h)).1
+      subst h
       refine ⟨hwf, ?_, ?_, ?_⟩
       · rw [inBounds, hend]; simp; exact hE
       · rw [hstart]; exact hj'
       · rw [hend]
+
+/-- `FittedAffine`: one well-formed path inside the table that covers the whole query -/
+theorem fitAlign_wf (S : Matrix) (o : Int) (r q : List Nat) (ps : List Pair)
+    (h : fitAlign S o r q = .ok ps) :
+    wellFormed ps = true ∧ inBounds ps r.length q.length = true ∧
+      (firstStart ps).2 = 0 ∧ (lastEnd ps).2 = q.length := by
+  obtain ⟨t, ht⟩ := map_fst_ok h
+  exact fitAlignT_wf true true true S o r q ps t ht
 
 /-! ### SWAffine -/
 
@@ -443,39 +503,41 @@ theorem swBestRows_bound (R C : Nat) :
         simp; omega
       · exact hb
 
-theorem swBest_bound (S : Matrix) (o : Int) (r q : List Nat) :
-    (swBest (swRows S o r q)).2.1 ≤ r.length ∧ (swBest (swRows S o r q)).2.2 ≤ q.length := by
+theorem swBest_bound (cross : Bool) (S : Matrix) (o : Int) (r q : List Nat) :
+    (swBest (swRows cross S o r q)).2.1 ≤ r.length ∧ (swBest (swRows cross S o r q)).2.2 ≤ q.length := by
   unfold swBest
   apply swBestRows_bound
   · simp [swRows, Biogo.Proofs.AlignAffTable.fillRows_length]; omega
   · intro row hrow
-    have hmem : row ∈ swRows S o r q := List.mem_of_mem_drop hrow
-    have := Biogo.Proofs.AlignAffTable.rows_all_len swFirst (swCell S o) q r
+    have hmem : row ∈ swRows cross S o r q := List.mem_of_mem_drop hrow
+    have := Biogo.Proofs.AlignAffTable.rows_all_len swFirst (swCell cross S o) q r
       (List.replicate (q.length + 1) zeroCell) (by simp) row hmem
     omega
   · exact ⟨Nat.zero_le _, Nat.zero_le _⟩
+
+/-- `SWAffine` (either switch, either fill): one well-formed path inside the table -/
+theorem swAlignT_wf (aware cross : Bool) (S : Matrix) (o : Int) (r q : List Nat) (ps : List Pair) (t : Bool)
+    (h : swAlignT aware cross S o r q = .ok (ps, t)) :
+    wellFormed ps = true ∧ inBounds ps r.length q.length = true := by
+  unfold swAlignT at h
+  simp only [] at h
+  obtain ⟨hI, hJ⟩ := swBest_bound cross S o r q
+  split at h
+  · cases h
+  · rename_i st hl
+    have h := (Prod.mk.inj (Except.ok.inj h)).1
+    subst h
+    have hinv := loop_inv aware cross true _ S o r q r.length q.length _ _ _ _ st
+      (init_inv r.length q.length _ _ _ hI hJ) hl
+    obtain ⟨hwf, hend, _⟩ := emit_wf hinv
+    refine ⟨hwf, ?_⟩
+    rw [inBounds, hend]; simp; exact ⟨hI, hJ⟩
 
 /-- `SWAffine`: one well-formed path inside the table -/
 theorem swAlign_wf (S : Matrix) (o : Int) (r q : List Nat) (ps : List Pair)
     (h : swAlign S o r q = .ok ps) :
     wellFormed ps = true ∧ inBounds ps r.length q.length = true := by
-  unfold swAlign swAlignT at h
-  simp only [] at h
-  obtain ⟨hI, hJ⟩ := swBest_bound S o r q
-  cases hl : tbLoop true true (swTable S o r q) S o r q r.length q.length
-      ((swBest (swRows S o r q)).2.1 + (swBest (swRows S o r q)).2.2)
-      { i := (swBest (swRows S o r q)).2.1, j := (swBest (swRows S o r q)).2.2, layer := .m,
-        last := .m, score := 0, maxI := (swBest (swRows S o r q)).2.1,
-        maxJ := (swBest (swRows S o r q)).2.2, aln := [] } with
-  | error e => rw [hl] at h; cases h
-  | ok st =>
-    rw [hl] at h
-    simp only [Except.map] at h
-    cases h
-    have hinv := loop_inv true true _ S o r q r.length q.length _ _ _ _ st
-      (init_inv r.length q.length _ _ _ hI hJ) hl
-    obtain ⟨hwf, hend, _⟩ := emit_wf hinv
-    refine ⟨hwf, ?_⟩
-    rw [inBounds, hend]; simp; exact ⟨hI, hJ⟩
+  obtain ⟨t, ht⟩ := map_fst_ok h
+  exact swAlignT_wf true true S o r q ps t ht
 
 end Biogo.Proofs.TraceWF
